@@ -101,6 +101,9 @@ def value(rot, i, v, flavour, freq):
         return -base if (i * 5 + rot + v) % 3 == 0 else base
     if flavour == "smooth":           # ratios close to one: safe under x**a and its inverse
         return (1000.0 if freq == C.D else 20.0) + base
+    if flavour == "smoothmix":        # the same magnitudes with changes of sign: ratios close to plus or minus one
+        sm = (1000.0 if freq == C.D else 20.0) + base
+        return -sm if (i * 5 + rot + v) % 3 == 0 else sm
     raise KeyError(flavour)
 
 
@@ -403,14 +406,14 @@ def eval_change(ss, func, shift, res, method=False):
     return out
 
 
-def eval_achange(ss, func, res, method=False):
+def eval_achange(ss, func, res, method=False, flavour=None):
     spec, freq = ss.spec, ss.freq
     fname = spec["freq"]
-    flavour = ss.flavour_for(func)
+    flavour = flavour or ss.flavour_for(func)
     x, ref, _ = ss.get(flavour)
     a = annual_factor(freq)
     sig = {"part": "achange", "func": func, "freq": fname}
-    case = {"part": "achange", "spec": spec, "func": func}
+    case = {"part": "achange", "spec": spec, "func": func, "flavour": flavour}
     res.ev()
     try:
         out = getattr(ir, func)(x)
@@ -434,8 +437,10 @@ def eval_achange(ss, func, res, method=False):
     if d is not None:
         res.violation("achange_formula", sig, case, d)
     if exp:
-        res.nt(("achange", spec_key(spec), func))
+        res.nt(("achange", spec_key(spec), func, flavour))
         res.count("achange_nontrivial")
+        if flavour == "smoothmix" and any(val * ref[(o - 1, v)] < 0 for (o, v), val in ref.items() if (o - 1, v) in ref):
+            res.count("achange_with_sign_change")
     if method:
         y = x.copy()
         r = getattr(y, func)()
@@ -537,6 +542,9 @@ def shard_change(item, res, ctx):
                     eval_change(ss, func, shift, res, method=method)
             for func in ACHANGE:
                 eval_achange(ss, func, res, method=method)
+                if func != "adiff_log":
+                    # integer powers of a negative ratio are defined: annualised rates across a change of sign
+                    eval_achange(ss, func, res, method=False, flavour="smoothmix")
             for conv in CONV:
                 if ROUNDTRIP[conv][2]:
                     eval_converter(ss, conv, res, -1, method=method)
@@ -669,10 +677,67 @@ def eval_cum(ss, func, k, direction, a, b, res, change=None, method=False, defau
     return dirty
 
 
+def eval_cum_kw(ss, func, kw, a, b, res):
+    """forward cumulation over [a, b] with a keyword shift, initial = original.  Period t takes
+    cum(level at the documented reference period of t, change at t); a start-of-year period keeps the level of the
+    initial condition ('tty': it is skipped; 'soy': it refers to itself and its change is neutral)."""
+    spec, freq = ss.spec, ss.freq
+    fname = spec["freq"]
+    nv = spec["nv"]
+    flavour = "pos" if func == "diff_log" else ("mix" if nv > 1 else "pos")
+    x, refx, _ = ss.get(flavour)
+    sig = {"part": "cum", "func": "cum_" + func, "shift": kw, "direction": "forward", "freq": fname}
+    case = {"part": "cum_kw", "spec": spec, "func": func, "kw": kw, "a": a, "b": b}
+    res.ev()
+    try:
+        c = getattr(ir, func)(x, kw)
+        out = getattr(ir, "cum_" + func)(c, kw, x, mk(freq, a) >> mk(freq, b))
+    except Exception as e:
+        res.violation("cum_exception", dict(sig, error=type(e).__name__), case, "%s: %s" % (type(e).__name__, e))
+        return
+    _unchanged(ss, flavour, res, sig, case, what="initial-condition")
+    got = to_map(freq, out)
+    ok = set()
+    for v in range(nv):
+        for t in range(a, b + 1):
+            if (t, v) not in refx:
+                continue
+            s_ = ref_period(freq, t, kw)
+            if s_ is None or s_ == t:
+                ok.add((t, v))                      # level of the initial condition
+            elif (s_ < a and (s_, v) in refx) or (s_, v) in ok:
+                ok.add((t, v))
+    bad = None
+    for v in range(nv):
+        for t in range(a, b + 1):
+            key = (t, v)
+            g = got.get(key)
+            if key in ok:
+                e = refx[key]
+                if g is None or not (abs(g - e) <= TOL * max(1.0, abs(e))):
+                    bad = bad or "period %d variant %d: cumulated %r, original %r" % (t, v, g, e)
+            elif key not in refx and g is not None:
+                bad = bad or "period %d variant %d: cumulated %r where the original is missing" % (t, v, g)
+    if bad:
+        res.violation("cum_inverse", sig, case, bad)
+    if ok:
+        res.nt(("cum_kw", spec_key(spec), func, kw, a, b))
+        res.count("cum_keyword_nontrivial")
+        if any(ref_period(freq, t, kw) in (None, t) for (t, v) in ok if t > a):
+            res.count("cum_keyword_start_of_year_inside_span")
+
+
 def cum_all_spans(ss, funcs, shifts, res):
     spec, freq = ss.spec, ss.freq
     L, s0 = spec["L"], spec["start"]
     e0 = s0 + L - 1
+    if freq != C.I:
+        # keyword shifts (forward): every start, ending at the same period, in the middle and at the end
+        for func in funcs:
+            for kw in KW_SHIFTS:
+                for a in range(s0, e0 + 1):
+                    for b in sorted({a, (a + e0) // 2, e0}):
+                        eval_cum_kw(ss, func, kw, a, b, res)
     for func in funcs:
         flavour = "pos" if func == "diff_log" else ("mix" if spec["nv"] > 1 else "pos")
         for k in shifts:
@@ -903,6 +968,8 @@ def run(ctx, total, info):
         "achange_nontrivial": (cnt.get("achange_nontrivial", 0), 10000 if q else 150000),
         "converter_roundtrip_nontrivial": (cnt.get("converter_roundtrip_nontrivial", 0), 18000 if q else 200000),
         "cum_forward_nontrivial": (cnt.get("cum_forward_nontrivial", 0), 15000 if q else 400000),
+        "cum_keyword_start_of_year_inside_span": (cnt.get("cum_keyword_start_of_year_inside_span", 0), 2000),
+        "achange_with_sign_change": (cnt.get("achange_with_sign_change", 0), 3000),
         "cum_backward_nontrivial": (cnt.get("cum_backward_nontrivial", 0), 13000 if q else 390000),
         "tty_start_of_year_asserted": (cnt.get("tty_start_of_year_asserted", 0), 7500 if q else 150000),
         "keyword_cross_year_values": (cnt.get("keyword_cross_year_values", 0), 130000 if q else 3400000),
@@ -924,12 +991,14 @@ def replay(case):
     if part == "change":
         eval_change(ss, case["func"], case["shift"], res, method=True)
     elif part == "achange":
-        eval_achange(ss, case["func"], res, method=True)
+        eval_achange(ss, case["func"], res, method=True, flavour=case.get("flavour"))
     elif part == "converter":
         eval_converter(ss, case["func"], res, case.get("shift", -1), method=True)
     elif part == "cum":
         eval_cum(ss, case["func"], case["k"], case["direction"], case["a"], case["b"], res, method=True,
                  default_span=case.get("default_span", False))
+    elif part == "cum_kw":
+        eval_cum_kw(ss, case["func"], case["kw"], case["a"], case["b"], res)
     elif part == "invalid":
         eval_invalid(ss, case["func"], case["shift"], case["form"], res)
     return ["%s %s %s" % (v["check"], engine.sigkey(v["signature"]), v["detail"]) for v in res.violations]
